@@ -178,7 +178,7 @@ def section_case(case):
 
 # ---- Image.add_checksum ---------------------------------------------------------------------------------------------
 _val = st.sampled_from(["aaa", "bbb", "", None, "AAA", "aaa "])
-addsum_strategy = st.lists(st.tuples(st.sampled_from(["md5", "sha256", "sha1"]), _val), min_size=1, max_size=10)
+addsum_strategy = st.lists(st.tuples(st.sampled_from(["md5", "sha256", "sha1", "SHA256", "Sha1", "MD5", "sha-256", "x"]), _val), min_size=1, max_size=10)   # type names are taken as given (any spelling a producer uses)
 
 
 def addsum_case(ops):
